@@ -555,11 +555,13 @@ def mut_label(m):
 
 def pick_nsteps(rng):
     r = rng.random()
-    if r < 0.08:
+    # most failure modes of an accepted value show only after some history has built up (running averages, correlation
+    # functions, hill and grid updates): mostly the whole history
+    if r < 0.05:
         return 0
-    if r < 0.2:
+    if r < 0.12:
         return rng.choice([1, 2])
-    return rng.choice([4, 5, 7, 8, 10, 12])
+    return rng.choice([5, 8, 10, 12, 12, 12, 12])
 
 
 def scenario(T, cfgtext, nsteps, vmdlike, wd):
@@ -920,6 +922,9 @@ def select_cases(c, H, templates, tier):
     if len(p0) > room:
         # stratified: every (object type, keyword, class) once, then random fill
         rng.shuffle(p0)
+        # a keyword that occurs in a template is in its working context there (e.g. corrFuncOffset next to corrFunc on):
+        # substitutions of existing keywords come before additions of the same (object, keyword, class) elsewhere
+        p0.sort(key=lambda tm: 1 if tm[1]["op"] == "add" else 0)
         seen, first, rest = set(), [], []
         for ti, m in p0:
             k = mut_label(m)
